@@ -286,7 +286,103 @@ proof! {
 	}
 }
 
+/// number of path hashes in the proof of this query
+const PLEN: usize = parse_env(option_env!("VH_PLEN"), 1) as usize;
+const NONE: usize = usize::MAX;
+
+/// explicit tree of the NL-leaf MMR by the append rule: (parent, node is a right child)
+const fn tree() -> ([usize; SIZE], [bool; SIZE]) {
+	let mut parent = [NONE; SIZE];
+	let mut is_right = [false; SIZE];
+	let mut pos = 0usize;
+	let mut n = 0usize;
+	while n < NL {
+		pos += 1;
+		let mut k = 0u32;
+		let mut sub = 1usize;
+		while k < ((n + 1) as u64).trailing_zeros() {
+			let right = pos - 1;
+			let left = right - sub;
+			parent[left] = pos;
+			parent[right] = pos;
+			is_right[right] = true;
+			sub = 2 * sub + 1;
+			pos += 1;
+			k += 1;
+		}
+		n += 1;
+	}
+	(parent, is_right)
+}
+const PARENT: [usize; SIZE] = tree().0;
+const IS_RIGHT: [bool; SIZE] = tree().1;
+
+/// The defining fold of a Merkle path: hash the element at its position, combine with one path
+/// hash per level up to the peak (left child first, parent position as index), then with the
+/// bagged peaks to the right (if any; index = mmr size), then with each peak to the left, nearest
+/// first. The WHOLE path is consumed; the result is compared with the root.
+fn fold(e: &Elem, pos: usize, path: &[Hash]) -> Hash {
+	let mut h = e.hash_with_index(pos as u64);
+	let mut cur = pos;
+	let mut i = 0;
+	while i < path.len() && PARENT[cur] != NONE {
+		let p = PARENT[cur];
+		h = if IS_RIGHT[cur] {
+			(path[i], h).hash_with_index(p as u64)
+		} else {
+			(h, path[i]).hash_with_index(p as u64)
+		};
+		cur = p;
+		i += 1;
+	}
+	if i < path.len() {
+		// cur is a peak
+		if cur != SIZE - 1 {
+			h = (h, path[i]).hash_with_index(SIZE as u64);
+			i += 1;
+		}
+		while i < path.len() {
+			h = (path[i], h).hash_with_index(SIZE as u64);
+			i += 1;
+		}
+	}
+	h
+}
+
+proof! {
+	[hash_mix] fn verify_is_the_defining_fold() {
+		// MerkleProof::verify on an ARBITRARY proof (not one produced by the MMR): for every position
+		// of the MMR, any element, any path hashes and any root, it accepts exactly when the defining
+		// fold over the whole path yields the root. Everything the property says about altered
+		// proofs (other element / position / path hash, shortened, lengthened) then reduces to the
+		// fold being injective, i.e. to collision resistance of the hash, which is not grin's code.
+		let e = Elem(nd::any());
+		let r: [u8; 32] = nd::any();
+		let root = Hash::from_vec(&r);
+		let mut path: Vec<Hash> = Vec::with_capacity(PLEN + 1);
+		let mut i = 0;
+		while i < PLEN {
+			let x: [u8; 32] = nd::any();
+			path.push(Hash::from_vec(&x));
+			i += 1;
+		}
+		let mut pos = 0usize;
+		while pos < SIZE {
+			let proof = MerkleProof { mmr_size: SIZE as u64, path: path.clone() };
+			let expected = fold(&e, pos, &path);
+			let res = proof.verify(root, &e, pos as u64);
+			check!(res.is_ok() == (expected == root), "verify accepts exactly when the defining fold over the whole path yields the root");
+			cover!(res.is_ok(), "some proof is accepted");
+			cover!(res.is_err(), "some proof is refused");
+			core::mem::forget(proof);
+			pos += 1;
+		}
+		core::mem::forget(path);
+	}
+}
+
 pub const HARNESSES: &[(&str, fn())] = &[
+	("c07b::verify_is_the_defining_fold", verify_is_the_defining_fold),
 	("c07b::construction_equals_definition", construction_equals_definition),
 	("c07b::honest_proofs_verify", honest_proofs_verify),
 	("c07b::accepted_proofs_consume_their_path", accepted_proofs_consume_their_path),
